@@ -193,10 +193,10 @@ func (x *lockX) lockCall(call *ast.CallExpr) (name string, acq bool, mode byte, 
 }
 
 type fctx struct {
-	x        *lockX
-	name     string
-	fresh    map[types.Object]bool // local variables holding private memory
-	dropAcc  bool                  // receiver is private: accesses are not recorded
+	x          *lockX
+	name       string
+	fresh      map[types.Object]bool // local variables holding private memory
+	dropAcc    bool                  // receiver is private: accesses are not recorded
 	deferCalls []*ast.CallExpr
 	accesses   []access
 	steps      []step
@@ -581,6 +581,24 @@ func (c *fctx) record(sel *ast.SelectorExpr, write bool, outs []outcome) {
 }
 
 // expr walks an expression in evaluation order; `write` says the expression is assigned to.
+func (c *fctx) recordGlobal(id *ast.Ident, obj *types.Var, write bool, outs []outcome) {
+	if c.dropAcc {
+		return
+	}
+	t := obj.Type()
+	if n := namedOf(t); n != nil && n.Obj().Pkg() != nil && n.Obj().Pkg().Path() == "sync" {
+		return // sync.Map, sync.Mutex …: synchronised by themselves
+	}
+	if types.Identical(t, types.Universe.Lookup("error").Type()) && !write {
+		return // sentinel errors, assigned once at initialisation
+	}
+	pos := c.x.p.fset.Position(id.Pos())
+	for _, o := range outs {
+		c.accesses = append(c.accesses, access{region: "global." + obj.Name(), write: write, held: cloneHeld(o.held),
+			where: fmt.Sprintf("%s:%d", filepath.Base(pos.Filename), pos.Line)})
+	}
+}
+
 func (c *fctx) expr(e ast.Expr, in []outcome, write bool) []outcome {
 	if e == nil {
 		return in
@@ -588,6 +606,12 @@ func (c *fctx) expr(e ast.Expr, in []outcome, write bool) []outcome {
 	switch v := e.(type) {
 	case *ast.CallExpr:
 		return c.call(v, in)
+	case *ast.Ident:
+		// a package-level variable is memory shared by every handle and every goroutine
+		if obj, ok := c.x.p.info.Uses[v].(*types.Var); ok && !obj.IsField() && obj.Pkg() == c.x.p.pkg && obj.Parent() == c.x.p.pkg.Scope() {
+			c.recordGlobal(v, obj, write, in)
+		}
+		return in
 	case *ast.SelectorExpr:
 		out := c.expr(v.X, in, false)
 		c.record(v, write, out)
@@ -823,7 +847,17 @@ func writeLocks(p *pkgInfo, dir string) error {
 	}
 	seen := map[accKey]string{}
 	keys := []accKey{}
+	// a package-level variable nobody writes after initialisation cannot be raced on
+	writtenGlobal := map[string]bool{}
 	for _, a := range allAcc {
+		if a.write && strings.HasPrefix(a.region, "global.") {
+			writtenGlobal[a.region] = true
+		}
+	}
+	for _, a := range allAcc {
+		if strings.HasPrefix(a.region, "global.") && !writtenGlobal[a.region] {
+			continue
+		}
 		r, ok := regions[a.region]
 		if !ok {
 			r = len(regNames)
